@@ -26,7 +26,7 @@ def _known_inputs(group):
     out = []
     if os.path.isdir(d):
         for fn in sorted(os.listdir(d)):
-            if fn.endswith(".json"):
+            if fn.endswith(".json") and not fn.startswith("findings-"):
                 j = json.load(open(os.path.join(d, fn)))
                 if j.get("group") == group:
                     desc = dict(j["desc"])
